@@ -6,7 +6,7 @@ From MV Require Import Term.Hash Term.Const Term.ConstProofs Term.Print Term.Pri
   Term.PrintInjProofs Term.MkMap Term.Atom Term.AtomPrintProofs.
 From MV Require Import Serde.Escape Serde.Lexer Serde.Parse Serde.ParseProofs Serde.ParseTokProofs Serde.ParseConstProofs
   Serde.ParseAtomProofs.
-From MV Require Import Serde.Clause Serde.ClauseParse Serde.ClauseTokProofs.
+From MV Require Import Serde.Clause Serde.ClauseParse Serde.ClauseTokProofs Serde.ClauseCellProofs.
 Import ListNotations.
 Open Scope Z_scope.
 
@@ -173,16 +173,18 @@ Section CP.
     pt f (pcall sym args ++ rest) = POk (PApply sym (map bexp_expr args)) rest.
   Proof. intros. apply parse_call_gen; try assumption. apply all_PB. Qed.
 
-  (* ---- a leaf constant other than a name, followed by the final '.' of a clause ------ *)
+  (* ---- a constant other than a name, followed by the final '.' of a clause ----------- *)
   Definition leaf_dot_ok (c : const) : bool :=
-    match c with CLeaf t _ _ => negb (ctype_eqb t NameT) | CCell _ _ _ _ => false end.
+    match c with CLeaf t _ _ => negb (ctype_eqb t NameT) | CCell _ _ _ _ => true end.
 
   Lemma parse_leaf_dot : forall c f rest, wf c = true -> valid c = true -> leaf_dot_ok c = true ->
     clause_follow rest -> (need c <= f)%nat ->
     pt f (pr c ++ 46 :: rest) = POk (expr c) (46 :: rest).
   Proof.
-    intros [t s n|t n a b] f rest W V L F N; [|discriminate L]. cbn [need] in N.
-    destruct f as [|[|[|f]]]; try lia. clear N.
+    intros [t s n|t n a b] f rest W V L F N.
+    2:{ cbn [expr_of]. exact (parse_cell_any parse_float fmt_float fmt_time fmt_dur float_rt float_shape time_plain dur_plain
+                                t n a b f (46 :: rest) W V N). }
+    cbn [need] in N. destruct f as [|[|[|f]]]; try lia. clear N.
     destruct t; [discriminate L| | | | | | |discriminate W| | |].
     - (* string *)
       cbn [valid] in V. apply andb_true_iff in V. destruct V as [Vb Ve].
